@@ -15,6 +15,7 @@ RULE = ('the five shipped curves and random axis-parallel polygons accepted by t
         'random extra points, random bisection histories; every leaf carries the piece object whose parameter range '
         'contains its interval, every slab of a closed curve has >= 3 leaves around, two leaves share <= 1 end point. '
         'distinct = distinct (curve, parameter) evaluations + distinct (curve, grids, history) meshes')
+RULE += ' ' + 'Every second random polygon is re-checked after the caller has shifted its vertex arrays in place and built another polygon from them (the curve is a value).'
 ASSUMPTIONS = [
     'absolute tolerance 16*eps*max(1, L, |vertex|) on coordinates (cos/sin and the affine map are each good to a few ulp)',
     'polygons that the constructor rejects by assertion are outside the quantifier (counted, not judged), except polygons '
@@ -23,7 +24,7 @@ ASSUMPTIONS = [
     'initial space grids contain every break point (precondition stated in the property)',
 ]
 REQUIRED = {t: ['curve:UnitSquare', 'curve:PiSquare', 'curve:LShape', 'curve:Circle', 'curve:UnitInterval',
-                'curve:random-polygon', 'param:breakpoint', 'param:breakpoint+-ulp', 'param:ends', 'param:vector-multi-piece',
+                'curve:random-polygon', 'curve:polygon-after-caller-reuses-its-arrays', 'param:breakpoint', 'param:breakpoint+-ulp', 'param:ends', 'param:vector-multi-piece',
                 'mesh:slabs>=3', 'mesh:closed-one-piece', 'mesh:extra-space-points', 'mesh:grid-graded-to-break-point', 'mesh:refined']
             for t in ('quick', 'thorough')}
 TIMEOUT = {'quick': 600, 'thorough': 3600}
@@ -348,7 +349,21 @@ def run_shard(spec, acc):
                 continue
             acc.count('polygons_accepted')
             wit = {'polygon': desc}
-            check_curve(acc, gamma, 'polygon', rng, spec['n_params'], verts, wit, 'curve:random-polygon')
+            verts_then = [v.copy() for v in verts]
+            check_curve(acc, gamma, 'polygon', rng, spec['n_params'], verts_then, wit, 'curve:random-polygon')
+            if k % 2 == 0:
+                # the caller goes on using its vertex arrays (here: shifts them in place and builds a second polygon from them);
+                # the first curve is a value and must still be the polygon it was built from
+                for v in verts[:-1]:
+                    v += desc['unit']
+                verts[-1][:] = verts[0]
+                try:
+                    P.PiecewisePolygon(verts, closed=True)
+                except AssertionError:
+                    pass
+                acc.seen('curve:polygon-after-caller-reuses-its-arrays')
+                check_curve(acc, gamma, 'polygon', rng, max(20, spec['n_params'] // 4), verts_then, dict(wit, caller_arrays='shifted in place afterwards'),
+                            'curve:random-polygon')
             check_mesh_on_curve(acc, gamma, 'polygon', rng, 15, wit, 'curve:random-polygon')
             if k == 0:
                 acc.sample({'polygon': desc, 'pw_start': list(gamma.pw_start)}, 'poly')
